@@ -72,7 +72,8 @@ Inductive slabel :=
 | ALaunch (i : nat)              (* loop: none -> running, worker goroutine created (:141) *)
 | AMark (i : nat) (skip : bool)  (* loop: none -> skipped (precondition / upstream skipped) | canceled (upstream failed or canceled) *)
 | AEnd (i : nat) (ok : bool)     (* worker: running -> finished (:214) | failed + lastError (:190-192) *)
-| ARetry (i : nat)               (* worker: retryCount+1, running -> none (:178-187) *)
+| ARetryInc (i : nat)            (* worker: retryCount+1, still running (:178); then it sleeps for the retry interval *)
+| ARetry (i : nat)               (* worker: running -> none (:187), the loop will launch the step again *)
 | ASignal (i : nat)              (* Signal: running -> canceled (node.go:244-259); needs the cancel flag *)
 | ATimeout (i : nat)             (* worker after the DAG deadline: running -> canceled + lastError (:166-173) *)
 | ACancel                        (* the cancel flag is set (Signal / Cancel) *)
@@ -118,9 +119,14 @@ Definition sstep (s : sched) (l : slabel) : option sched :=
                          else None
       | _, _ => None
       end
+  | ARetryInc i =>
+      match sph s, st_at (tbl s) i with
+      | SLoop, Some n => if is_running (nst n) then Some (set_st s i (mkNode NRunning (S (nrc n)))) else None
+      | _, _ => None
+      end
   | ARetry i =>
       match sph s, st_at (tbl s) i with
-      | SLoop, Some n => if is_running (nst n) then Some (set_st s i (mkNode NNone (S (nrc n)))) else None
+      | SLoop, Some n => if is_running (nst n) then Some (set_st s i (mkNode NNone (nrc n))) else None
       | _, _ => None
       end
   | ASignal i =>
